@@ -695,7 +695,7 @@ def _bucket(n):
 
 VALS = [0, 1, 2, 3, "a", "b"]
 ELEMS = [0, 1, 7, "e", "f", "hello"]
-DECK_ENTRIES = [{"n": 1}, {"n": 2, "e": 3}, {"e": "a"}, {"n": 0, "e": 0, "d": 5}, {"d": 1}, {"n": "b", "d": 2},
+DECK_ENTRIES = [{"n": 1}, {"n": 2, "e": 3}, {"e": "a"}, {"n": 0, "e": 0, "d": 5}, {"d": 1}, {"n": "b", "d": 2}, {}, {},
                 {"e": 2, "n": 3}, {"n": 3, "e": "a", "d": 0}]
 
 
